@@ -10,7 +10,7 @@ cd $R; git apply $ADV/patch.diff; go build ./... && echo build-ok
 echo "changed:"; (cd $ADV/demo && go test -count=1 ./... 2>&1 | grep -v "^FAIL$" | tail -3)
 echo "tests:"; ELVISH_TEST_TIME_SCALE=10 go test -vet=off -count=1 $TESTS 2>&1 | grep -v "no test files" | tail -4
 git checkout -- .
-git -C /repo apply $ADV/patch.diff
+T=${TARGET:-/repo}; git -C $T apply $ADV/patch.diff
 cd /verif
-for q in $P $EXTRA; do ./check $q 2>&1 | grep -E "^C[0-9]+:|failing input|VIOLATION|BROKEN" | cut -c1-420; done
-git -C /repo checkout -- .; git -C /repo status --short | head -3
+for q in $P $EXTRA; do VERIF_REPO=$T ./check $q 2>&1 | grep -E "^C[0-9]+:|failing input|VIOLATION|BROKEN" | cut -c1-420; done
+git -C $T checkout -- .; git -C $T status --short | head -3
